@@ -3,7 +3,7 @@
 each must still be reported (exit 1).  Harmless refactorings (benign/*/patch.diff) against ALL
 checks with --benign: none may report a failing input.
 
-  tools/regress.py [--only C03] [--benign]
+  tools/regress.py [--only C03] [--benign [--own]]      (--own: only the check of the patch's own property)
 """
 import sys, os, json, subprocess, glob, re, time
 
@@ -40,7 +40,7 @@ def main():
             continue
         sh(["git", "-C", "/repo", "apply", patch])
         try:
-            checks = [f"C{i:02d}" for i in range(1, 21)] if benign else [pid]
+            checks = [f"C{i:02d}" for i in range(1, 21)] if (benign and "--own" not in sys.argv) else [pid]
             outcome = []
             for c in checks:
                 rc, out = sh([os.path.join(ROOT, "check"), c, "quick"], cwd=ROOT, timeout=7200)
